@@ -16,7 +16,11 @@ connection-level error — the histories of the property: any subset of the stre
 stream-scoped faults (RESET, STOP_SENDING, malformed message, oversized section, FIN before
 HEADERS) at any point; excluded are only connection-level protocol violations (bad frame sequence,
 bad frame encoding, QPACK failure), which are allowed — required — to close the connection.
-`view j x`: what a run looks like from stream `j` — its final state and what its application saw. -/
+`view j x`: what a run looks like from stream `j` — its final state and what its application saw.
+A *valid message* (healthy stream) is a statement about the wire bytes through the reference automaton
+of C02 (`msgToks`); `follows` = the application makes the calls of the documented receive pattern,
+each polled again while it answers `Pending`; `digest` = its answers with `Pending` left out
+(`H3/Lemmas/IsoLift.lean`, `IsoPolled*.lean`). -/
 namespace H3.Props.C07
 open H3.Iso H3.Gen.Consts
 open H3.ReqRecv (Role Res St FSt Env fsSrc fsFuel first)
@@ -674,6 +678,39 @@ theorem C07_healthy_stream_schedule_irrelevant (cfg : Cfg) (hist₁ hist₂ : Li
   show bodyBytes (digest _).body = bodyBytes (digest _).body
   rw [a3, b3, bodyBytes_data_append, bodyBytes_data_append, a1, b1]
 
+/-- **Polled again after every `Pending` = everything delivered first.**  Stream `j₁` of `hist₁`:
+    deliveries and polls of the documented pattern interleaved in ANY way (as in
+    `C07_healthy_stream_delivers_polled`).  Stream `j₂` of `hist₂`: the same bytes (cut the same way or
+    another), all delivered before the head call and the body task are polled once each (the schedule
+    of `C07_healthy_stream_delivers`; that it follows the pattern is `follows_delivered_first`: with
+    FIN there the head call answers at once).  The two applications are given the same head, the same
+    body bytes, the same trailers. -/
+theorem C07_healthy_stream_polled_as_delivered_first (cfg : Cfg) (hist₁ hist₂ : List HEv)
+    (hs₁ : StreamScoped cfg hist₁) (hs₂ : StreamScoped cfg hist₂) (j₁ j₂ : Nat)
+    (cs₁ cs₂ : List ReqRecv.Bytes) (fuel₁ fuel₂ : Nat) (h : ReqRecv.Bytes) (ds : List ReqRecv.Bytes) (tr : Option ReqRecv.Bytes)
+    (hbytes : cs₂.flatten = cs₁.flatten)
+    (hp₁ : peersOf (proj j₁ hist₁) = cs₁.map Peer.chunk ++ [Peer.fin])
+    (hf₁ : follows cfg fuel₁ .head none {} (proj j₁ hist₁) = true)
+    (hl₁ : (proj j₁ hist₁).getLast? = some (.call (.body fuel₁)))
+    (hj₂ : proj j₂ hist₂ =
+      (cs₂.map Peer.chunk ++ [Peer.fin]).map StreamEv.peer ++ [.call .head, .call (.body fuel₂)])
+    (hne₁ : ∀ b ∈ cs₁, b ≠ []) (hne₂ : ∀ b ∈ cs₂, b ≠ [])
+    (hmsg : H3.FS.run H3.FS.frameDec (.hdr []) cs₁.flatten = (.hdr [], msgToks h ds tr))
+    (hlen : ∀ d ∈ ds, d.length < H3.FS.USIZE_MAX)
+    (hh : cfg.hdr.head h = .ok) (hT : ∀ t, tr = some t → cfg.hdr.trailer t = .ok)
+    (hfuel₁ : (msgToks h ds tr).length < fuel₁) (hfuel₂ : (msgToks h ds tr).length < fuel₂) :
+    let g₁ := digest (obsOf j₁ (run cfg {} hist₁).2)
+    let g₂ := digest (obsOf j₂ (run cfg {} hist₂).2)
+    g₁.heads = g₂.heads ∧ bodyBytes g₁.body = bodyBytes g₂.body ∧ g₁.trailers = g₂.trailers := by
+  have hw₂ : Wire cs₂.flatten (msgToks h ds tr) := by
+    rw [hbytes]; exact ⟨hmsg, noRaw_of_msgToks _ _ h ds tr hmsg hlen⟩
+  have hcalls : [StreamEv.call Call.head, StreamEv.call (Call.body fuel₂)] = [Call.head, Call.body fuel₂].map StreamEv.call :=
+    rfl
+  exact C07_healthy_stream_schedule_irrelevant cfg hist₁ hist₂ hs₁ hs₂ j₁ j₂ cs₁ cs₂ fuel₁ fuel₂ h ds tr hbytes hp₁
+    (by rw [hj₂, hcalls]; exact peersOf_peers_calls _ _) hf₁
+    (by rw [hj₂]; exact follows_delivered_first hw₂ cfg hh fuel₂ cs₂ hne₂ rfl) hl₁
+    (by rw [hj₂]; simp) hne₁ hne₂ hmsg hlen hh hT hfuel₁ hfuel₂
+
 end Healthy
 
 /-! ### non-vacuity: three concurrent requests, one RESET, one malformed, interleaved -/
@@ -1012,6 +1049,15 @@ example :
   C07_healthy_stream_schedule_irrelevant srv (hist₃.take 20) hist₅ (by decide +kernel) (by decide +kernel) 0 0 cs₀ cs₅ 20 20
     [0xaa, 0xbb] [[], [0xc1, 0xc2]] none (by decide) (by decide +kernel) (by decide +kernel) (by decide +kernel)
     (by decide +kernel) (by decide +kernel) (by decide +kernel) (by decide) (by decide) (by decide +kernel) (by decide)
+    (by decide) (by intro t ht; cases ht) (by decide) (by decide)
+
+example :
+    (digest (obsOf 0 (run srv {} hist₅).2)).heads = (digest (obsOf 0 (run srv {} (hist₃.take 20)).2)).heads ∧
+    bodyBytes (digest (obsOf 0 (run srv {} hist₅).2)).body = bodyBytes (digest (obsOf 0 (run srv {} (hist₃.take 20)).2)).body ∧
+    (digest (obsOf 0 (run srv {} hist₅).2)).trailers = (digest (obsOf 0 (run srv {} (hist₃.take 20)).2)).trailers :=
+  C07_healthy_stream_polled_as_delivered_first srv hist₅ (hist₃.take 20) (by decide +kernel) (by decide +kernel) 0 0 cs₅ cs₀ 20 20
+    [0xaa, 0xbb] [[], [0xc1, 0xc2]] none (by decide) (by decide +kernel) (by decide +kernel) (by decide +kernel)
+    (by decide +kernel) (by decide) (by decide) (by decide +kernel) (by decide)
     (by decide) (by intro t ht; cases ht) (by decide) (by decide)
 
 -- trailers, per-byte cutting, a poll after every byte; the block is remembered while `recv_trailers` waits for FIN
